@@ -11,6 +11,8 @@
 (*   [e |-> "Reply", a, to]      handler a wrote; the socket sent it to    *)
 (*   [e |-> "End", a]            handler a returned                        *)
 (*   [e |-> "Closed", a]         (hook) packetConn.Close of a completed    *)
+(*   [e |-> "Idle", a]           (hook) a's idle timer fired in Read: the  *)
+(*                               loop is told, Read returns EOF            *)
 (*   [e |-> "Crash", msg]        the server process died                   *)
 (***************************************************************************)
 EXTENDS Integers, Sequences, FiniteSets, TLC
@@ -38,12 +40,20 @@ U2b(h) == \A i \in Idx(h, "Dlv") : \A j \in Idx(h, "Dlv") :
              (h[i].c = h[j].c /\ h[i].seq = h[j].seq) => h[i].a = h[j].a
 \* U3: replies go only to the association's own client
 U3(h) == \A i \in Idx(h, "Reply") : h[i].to = ClientOf(h, h[i].a)
-\* U4: a datagram that arrives after its client's association has been closed is never
-\*     delivered to that association, and a fresh association is started for it
+\* U4: a datagram that arrives after its client's association has been closed - or has expired ("Idle": the
+\*     30 s idle timer fired and the loop was told) - is never delivered to that association, and an association
+\*     newer than it serves the client
+NewIdx(h, a) == LET S == { i \in Idx(h, "New") : h[i].a = a } IN IF S = {} THEN 0 ELSE CHOOSE i \in S : TRUE
+Ended(h) == Idx(h, "Closed") \cup Idx(h, "Idle")
 U4(h) == \A i \in Idx(h, "DgIn") :
-            \A k \in { k \in Idx(h, "Closed") : k < i /\ ClientOf(h, h[k].a) = h[i].c } :
+            \A k \in { k \in Ended(h) : k < i /\ ClientOf(h, h[k].a) = h[i].c } :
                /\ \A j \in Idx(h, "Dlv") : ~(h[j].a = h[k].a /\ h[j].seq = h[i].seq)
-               /\ \E j \in Idx(h, "New") : j > k /\ h[j].c = h[i].c /\ h[j].a # h[k].a
+               /\ \E j \in Idx(h, "New") : j > NewIdx(h, h[k].a) /\ h[j].c = h[i].c /\ h[j].a # h[k].a
+\* U5: a client has one virtual connection at a time: a new one is started only after the previous one of the
+\*     same client has returned, been closed or expired
+U5(h) == \A j \in Idx(h, "New") : \A i \in Idx(h, "New") :
+            (i < j /\ h[i].c = h[j].c) =>
+               \E k \in (i+1)..(j-1) : (IsE(h[k], "End") \/ IsE(h[k], "Closed") \/ IsE(h[k], "Idle")) /\ h[k].a = h[i].a
 
 UdpViolations(h, complete) ==
   (IF U0(h) THEN {} ELSE {"U0 the server loop crashed"})
@@ -53,4 +63,5 @@ UdpViolations(h, complete) ==
   \cup (IF U2b(h) THEN {} ELSE {"U2b one datagram delivered to two connections"})
   \cup (IF U3(h) THEN {} ELSE {"U3 a reply went to another client's address"})
   \cup (IF ~complete \/ U4(h) THEN {} ELSE {"U4 a datagram arriving after its association closed was not served by a fresh one"})
+  \cup (IF U5(h) THEN {} ELSE {"U5 a second virtual connection was started for a client whose connection was still alive"})
 =============================================================================
